@@ -40,7 +40,11 @@ KnownType(t) == t \in {"login", "login-ipr", "dronecheck", "combined"}
 \* Contract state:
 \*   c.cfg   = [svcs |-> sequence of [name, type], required |-> set of data items, timeout |-> BOOLEAN]
 \*   c.cl    = function: live client id -> client record
-\*   c.tags  = every routing tag ever seen on a query (tags identify instances, so they never repeat)
+\*   c.tags  = every routing tag ever seen on a query, with the client id it was seen for: set of <<tag, id>>.
+\*             (How the daemon forms tags is its own business - the source announces a hash-based format -, so the
+\*             contract does not demand that a tag never repeats; it demands what the properties need: a new instance's
+\*             tag differs from the tags of the OTHER live instances, and nothing carries the tag of a departed client
+\*             whose id has not been announced again.)
 \*   c.gens  = function: client id -> number of times the server has announced it
 CInit(cfg) == [cfg |-> cfg, cl |-> <<>>, tags |-> {}, gens |-> <<>>]
 \* iauth_xquery loaded?  (cfg.xq, default TRUE.)  Without it nothing parses passwords, nothing is queried and only
@@ -163,7 +167,8 @@ CStep(c, e, o, n) ==
     tagOK == \/ xs = <<>>
              \/ /\ tgt # -1
                 /\ Cardinality(obsTags) = 1
-                /\ IF x2.tag # "" THEN obsTags = {x2.tag} ELSE obsTags \cap c.tags = {}
+                /\ IF x2.tag # "" THEN obsTags = {x2.tag}
+                   ELSE obsTags \cap {c.cl[i].tag : i \in DOMAIN c.cl \ {tgt}} = {}
     newTag == IF tgt # -1 /\ x2.tag = "" /\ xs # <<>> THEN xs[1].tag ELSE x2.tag
     \* ---- queries --------------------------------------------------------------------------------
     queryEvent == tgt # -1 /\ (e.e \in {"N", "d", "u", "u0", "n", "U", "H"} \/ pwok)
@@ -259,13 +264,16 @@ CStep(c, e, o, n) ==
     cfg2 == IF e.e = "RL" THEN [c.cfg EXCEPT !.svcs = e.svcs] ELSE c.cfg
     gens2 == IF e.e = "C" THEN [i \in DOMAIN c.gens \cup {e.id} |-> IF i = e.id THEN GenOf(c, i) + 1 ELSE c.gens[i]]
              ELSE c.gens
-    c2 == [cfg |-> cfg2, cl |-> cl2, tags |-> c.tags \cup obsTags, gens |-> gens2]
+    c2 == [cfg |-> cfg2, cl |-> cl2, tags |-> c.tags \cup {<<t, tgt>> : t \in obsTags}, gens |-> gens2]
     \* nothing names a client that is not live: every client-directed line is for an id that was live before the step
     \* (or is being announced), and no query carries the tag of a departed instance
     liveBefore == DOMAIN c.cl \cup (IF e.e = "C" THEN {e.id} ELSE {})
     liveTags == {c.cl[i].tag : i \in DOMAIN c.cl}
+    \* tags of departed clients whose id is not live (again): "no query carrying its routing tag ... until the server
+    \* announces the same id again"
+    deadTags == {p[1] : p \in {q \in c.tags : q[2] \notin liveBefore}} \ liveTags
     deadOK == /\ \A k \in 1..Len(cms) : cms[k].id \in liveBefore
-              /\ \A k \in 1..Len(xs) : xs[k].tag \notin (c.tags \ liveTags)
+              /\ \A k \in 1..Len(xs) : xs[k].tag \notin deadTags
     \* a stray reply, a junk line or a line for an unknown client must have no effect at all
     silent == stray \/ e.e = "RL" \/ (tgt = -1 /\ e.e \notin {"J", "QC"})
     \* ---- verdict ---------------------------------------------------------------------------------
